@@ -1,6 +1,8 @@
 package main
 
 import (
+	"fmt"
+	"os"
 	"go/ast"
 	"go/constant"
 	"go/token"
@@ -171,6 +173,103 @@ func checkEscapeResolver(c *Ctx, rule string, p *packages.Package) {
 			}
 			for _, s := range cur.b.Succs {
 				stack = append(stack, st{s, op})
+			}
+		}
+		// the flag form: a backslash sets a loop-carried flag, and the next round, seeing the flag, writes the character
+		// without examining it. The flag must be cleared where it is consumed: a flag that is only ever set resolves the first
+		// escape of a literal and leaves all later ones as they are.
+		if !reTest && (reTestOpaque || lostChar) {
+			flagVerdict := 0 // 1 pass, -1 fail
+			for _, b := range fn.Blocks {
+				for _, in := range b.Instrs {
+					ph, ok := in.(*ssa.Phi)
+					if !ok {
+						continue
+					}
+					if bt, ok := ph.Type().Underlying().(*types.Basic); !ok || bt.Kind() != types.Bool {
+						continue
+					}
+					// is it a loop-carried flag (some edge depends on itself) that the escape path sets?
+					setOnEscape, selfCarried := false, false
+					cleared, clearedWhereConsumed := false, false
+					seenV := map[ssa.Value]bool{}
+					var visit func(v ssa.Value, from *ssa.BasicBlock, depth int)
+					visit = func(v ssa.Value, from *ssa.BasicBlock, depth int) {
+						if depth > 6 {
+							return
+						}
+						if k, ok := v.(*ssa.Const); ok && k.Value != nil {
+							if constant.BoolVal(k.Value) {
+								if from == escSucc || escSucc.Dominates(from) || reach(escSucc, map[*ssa.BasicBlock]bool{testBlock: true, b: true})[from] {
+									setOnEscape = true
+								}
+							} else if from != nil && b.Dominates(from) && from != b {
+								cleared = true
+								for _, cd := range controlConds(from) {
+									if cd.v == ssa.Value(ph) && cd.pol {
+										clearedWhereConsumed = true
+									}
+								}
+								if from.Idom() != nil {
+									// the clearing block itself may be the consuming block's only successor
+									for _, cd := range controlConds(from) {
+										if cd.v == ssa.Value(ph) && cd.pol {
+											clearedWhereConsumed = true
+										}
+									}
+								}
+							}
+							return
+						}
+						if v == ssa.Value(ph) {
+							selfCarried = true
+							return
+						}
+						if seenV[v] {
+							return
+						}
+						seenV[v] = true
+						if p2, ok := v.(*ssa.Phi); ok {
+							for i, e := range p2.Edges {
+								visit(e, p2.Block().Preds[i], depth+1)
+							}
+						}
+					}
+					for i, e := range ph.Edges {
+						visit(e, b.Preds[i], 0)
+					}
+					if os.Getenv("EMCHECK_DEBUG") != "" {
+						fmt.Fprintf(os.Stderr, "flag %s: set=%v self=%v cleared=%v consumed=%v escSucc=%d\n", ph.Name(), setOnEscape, selfCarried, cleared, clearedWhereConsumed, escSucc.Index)
+					}
+					if !setOnEscape || !selfCarried {
+						continue
+					}
+					// the flag must be tested somewhere
+					tested := false
+					for _, r := range *ph.Referrers() {
+						if _, ok := r.(*ssa.If); ok {
+							tested = true
+						}
+					}
+					if !tested {
+						continue
+					}
+					switch {
+					case !cleared:
+						flagVerdict = -1
+					case clearedWhereConsumed && flagVerdict == 0:
+						flagVerdict = 1
+					}
+				}
+			}
+			switch flagVerdict {
+			case -1:
+				c.Fail(rule, key, fd.Pos(), "a backslash sets a flag that tells the next round to copy the character as it is, and nothing ever clears the flag: after the first escape of a literal every following character, backslashes included, is copied verbatim, so a literal with two escapes keeps the second backslash",
+					`the literals "\"\"" and "\"a\""`)
+				continue
+			case 1:
+				c.Pass(rule, key, fd.Pos(), "flag form: set by a backslash, cleared where the flagged character is written")
+				continue
 			}
 		}
 		switch {
